@@ -382,9 +382,27 @@ fn cmd_check(args: &[String]) -> i32 {
                 }
                 if let Some((st, c)) = w.batch {
                     // died inside a batch: the run announced last is the culprit
-                    aborts += 1;
                     let i = w.last.unwrap_or(st);
                     let s = run_seed(seed, &id, i);
+                    let confirmed = if prop.abort_needs_fresh_confirmation() {
+                        // the same run as the first thing a fresh process does
+                        let st = Command::new(std::env::current_exe().unwrap())
+                            .args(["one", &id, &i.to_string(), "--tier", tier.name()])
+                            .stdout(Stdio::null())
+                            .stderr(Stdio::null())
+                            .status();
+                        !st.is_ok_and(|s| s.code().is_some())
+                    } else {
+                        true
+                    };
+                    if !confirmed {
+                        stats.inc("worker_deaths_not_reproduced_in_fresh_process");
+                        println!(
+                            "# NOTE worker died during run index {i} but the same run completes as the first run of a fresh process: state carried over between simulated executions inside the worker (not counted as a violation)"
+                        );
+                    }
+                    aborts += 1;
+                    if confirmed {
                     raw.push(Violation {
                         property: id.clone(),
                         oracle: "abort".into(),
@@ -398,6 +416,7 @@ fn cmd_check(args: &[String]) -> i32 {
                         minimised: false,
                         shrink_steps: 0,
                     });
+                    }
                     if i > st {
                         queue.push_front((st, i - st));
                     }
